@@ -1,5 +1,6 @@
 //! uflow-sim: deterministic simulation with fault injection for lowquark/uflow.
 
+mod adversary;
 mod alloc;
 mod checks;
 mod gen;
@@ -54,6 +55,10 @@ fn usage() -> ! {
 
 fn main() {
     world::install_panic_hook();
+    if !adversary::crc_selfcheck() {
+        println!("HARNESS-ERROR the harness CRC disagrees with uflow's codec");
+        std::process::exit(2);
+    }
     let args: Vec<String> = std::env::args().collect();
     if args.len() < 2 {
         usage();
@@ -206,6 +211,17 @@ fn main() {
             watchdog::register_worker(0);
             let out = world::execute(&plan, &mut oracles, world::ExecOpts::default(), runner::mk_adversary(fam, &plan)).unwrap();
             println!("violation: {:?}\npanic: {:?}", out.violation, out.panic);
+        }
+        "materialise" => {
+            // materialise <ID> <seed> <run> <out.json>
+            let def = checks::by_id(&args[2]).expect("property");
+            let run: u64 = args[4].parse().unwrap();
+            let fam = def.family_of(run);
+            let plan = (fam.gen)(args[3].parse().unwrap(), run, false);
+            watchdog::register_worker(0);
+            let v = runner::run_plan(&def, fam, &plan, true).unwrap();
+            v.materialised.unwrap().save(&args[5]).unwrap();
+            println!("digest {:016x} violation {:?}", v.digest, v.violation.map(|x| x.clause));
         }
         "show" => {
             let def = checks::by_id(&args[2]).expect("property");
